@@ -13,7 +13,7 @@ META = dict(
     stubs=['Dataset.__repr__ -> constant (exception messages embed repr(self))', 'numpy -> np_shim', 'pickle -> pickle_shim', 'lazy_parallel_map/single_thread_prefetch -> serial contract', 'rng -> engine.rt.Rng'],
     assumptions=['keys are the concrete strings k0..k3 / m0..m2; "raises a lookup error" is checked as "raises and never returns a value"',
                  'a stage without keys()/items() may refuse loudly; whatever it does return must be aligned with iteration'],
-    bounds=dict(quick='dict-backed sources n in 0..3; every op at depth 1; op-class pairs at depth 2 (n=3; two symbolic selections n=2)',
+    bounds=dict(quick='dict-backed sources n in 0..3; every op at depth 1; op-class pairs at depth 2 (n=3; two symbolic selections n=2); programs with a memory cache additionally after a reversed pass by index / by key',
                 thorough='all depth-2 pairs n in 1..3'),
     outside=['non-string keys', 'symbolic key strings', 'depth > 2'],
 )
@@ -22,7 +22,7 @@ KF_SLICE = 'KF-C03-slice-lookup-outside-selection'
 ABSENT = 'zz_absent'
 
 
-def body_keys(n, ops, *args):
+def body_keys(n, ops, warm, *args):
     xs, ys, qs, rs, _ = U.split_params(args)
     try:
         b = U.build('dict', n, ops, xs, ys, qs, rs)
@@ -33,6 +33,13 @@ def body_keys(n, ops, *args):
     if not ref.iter_ok or ref.keys is None and not _maybe_keys(ds):
         rt.reached()
         return True
+    # earlier accesses in another order (stateful stages such as a memory cache are then filled out of order) change nothing
+    if warm == 'rev' and ref.indexable and ref.has_len:
+        for j in range(len(ref.vals) - 1, -1, -1):
+            ds[j]
+    elif warm == 'keyrev' and ref.has_keys and ref.indexable:
+        for k in list(ref.keys)[::-1]:
+            ds[k]
     it = list(ds)
     # ---- keys(): one key per example in iteration order
     try:
@@ -164,6 +171,9 @@ def _slice_above_source(ops):
     return False
 
 
+STATEFUL = ('cache',)      # stages that keep state between accesses
+
+
 def conditions(tier, seed):
     out, seen = [], set()
     sel = ('sl', 'idx', 'nparr')
@@ -172,7 +182,10 @@ def conditions(tier, seed):
         key = (n, ops)
         if key not in seen and U.valid_program(n, ops, 3):
             seen.add(key)
-            out.append(key)
+            out.append(key + ('none',))
+            if any(o[0] in STATEFUL for o in ops) and n >= 2:
+                out.append(key + ('rev',))
+                out.append(key + ('keyrev',))
     for n in range(0, 4):
         for op in U.ALPHABET:
             add(n, (op,))
@@ -204,6 +217,6 @@ FAMILIES = [
            lambda tier, seed: [(k, n, e) for k in ('reshuffle', 'reshuffle_map', 'local', 'reshuffle_pf1', 'reshuffle_filter', 'frozen') for n in (0, 1, 2, 3)
                                for e in ((1, 2) if k != 'frozen' else (1,)) if n * e <= (4 if tier == 'quick' else 6)],
            timeout=dict(quick=60, thorough=300), desc='items() of reshuffled / locally shuffled / prefetched datasets pairs each example with its own key; frozen snapshots stay aligned'),
-    Family('keys', body_keys, ['n', 'ops'], U.POOL_PARAMS, conditions, timeout=dict(quick=60, thorough=300),
+    Family('keys', body_keys, ['n', 'ops', 'warm'], U.POOL_PARAMS, conditions, timeout=dict(quick=60, thorough=300),
            desc='keys()/items() aligned with iteration; ds[key] returns the example of that key; absent or removed keys raise'),
 ]
